@@ -28,6 +28,8 @@ def harnesses(tier, seed):
         for ty, term in (("MF", "find_with_index"), ("FMF", "find"), ("FLF", "find")):
             for c in (1, 2):
                 hs.append(h(term, ty, "slice", 4, 2, c))
+        hs.append(h("find", "MF", "sched", 4, 2, 1))     # iterator-backed source of unknown length, full schedule model
+        hs.append(h("find", "FMF", "schedx", 4, 2, 2))
         hs.append(h("first", "F", "slice", 4, 2, 1))
         hs.append(h("any", "M", "slice", 4, 2, 2))
         hs.append(h("all", "FM", "slice", 4, 2, 1))
@@ -40,7 +42,7 @@ def harnesses(tier, seed):
                     if term in ("any", "all", "first", "first_with_index") and (n, t, c) not in ((4, 2, 1), (4, 2, 2)):
                         continue
                     hs.append(h(term, ty, "slice", n, t, c))
-            for src in ("vec", "range"):
+            for src in ("vec", "range", "sched", "schedx"):
                 for c in (1, 2):
                     hs.append(h("find", ty, src, 4, 2, c))
             hs.append(h("find", ty, "slice", 4, 2, "auto", "ChunkSize::Auto"))
